@@ -219,7 +219,7 @@ Init ==
   /\ src \in Sources
   /\ inst = <<Fresh(Elems(src))>>
   /\ todo = IF src.explore THEN <<>> ELSE Script(src)
-  /\ obs = [a |-> "create", arg |-> CreateArg(src), exp |-> [ret |-> "ok", n |-> Len(Elems(src))]]
+  /\ obs = [a |-> "create", arg |-> CreateArg(src), src |-> src, exp |-> [ret |-> "ok"]]
 
 Next ==
   \/ /\ todo # <<>>
@@ -243,7 +243,7 @@ TypeOK ==
 (* every answer of the design is acceptable to the meaning (Tier 2 => Tier 1) *)
 Accepts ==
   [][ LET i == obs'.arg.i IN
-      CASE obs'.a = "value"   -> IF obs'.exp.d = <<>> THEN inst[i].pos < Len(inst[i].seq) => obs'.exp.ret = "value"
+      CASE obs'.a = "value"   -> IF obs'.exp.d = <<>> THEN obs'.exp.ret = (IF inst[i].pos < Len(inst[i].seq) THEN "value" ELSE "end")
                                  ELSE T1Value(src, inst[i], obs'.exp.ret, obs'.exp.d) /\ Exactly(obs'.exp.d, inst[i].seq[inst[i].pos + 1])
         [] obs'.a = "advance" -> T1Advance(inst[i], obs'.exp.ret)
         [] obs'.a = "reset"   -> T1Reset(obs'.exp.ret)
